@@ -166,6 +166,8 @@ def observe(t):
     guard("sum_whole", "0", lambda: core.frac(float(t.sum())))
     guard("sum_obs", [], lambda: fr(t.sum("observation")) if n > 0 else [])
     guard("sum_samp", [], lambda: fr(t.sum("sample")) if m > 0 else [])
+    guard("nzc_obs", [], lambda: [int(x) for x in t.nonzero_counts("observation")] if n > 0 else [])
+    guard("nzc_samp", [], lambda: [int(x) for x in t.nonzero_counts("sample")] if m > 0 else [])
     guard("nnz", 0, lambda: int(t.nnz))
     guard("density", "0", lambda: core.frac(t.get_table_density()))
     o["accessor_errors"] = errs
@@ -241,6 +243,15 @@ def op_templates():
                 r = t.update_ids(m, axis=ax, strict=True, inplace=inplace)  # collides when >1 id
                 return r, [{"op": "update_ids", "axis": ax, "id_map": [[a, b] for a, b in m.items()], "strict": True}], inplace
             T["update-ids-colliding-%s-%s" % (ax, inplace)] = f_upd3
+
+        for inplace in (True, False):
+            def f_upd4(t, rng, ax=ax, inplace=inplace):
+                i = ids(t, ax)
+                # rename the first id onto another id that keeps its name: must be refused, table untouched
+                m = {i[0]: i[-1]} if len(i) > 1 else {"x": "y"}
+                r = t.update_ids(m, axis=ax, strict=False, inplace=inplace)
+                return r, [{"op": "update_ids", "axis": ax, "id_map": [[a, b] for a, b in m.items()], "strict": False}], inplace
+            T["update-ids-onto-existing-%s-%s" % (ax, inplace)] = f_upd4
 
         def f_sort(t, rng, ax=ax):
             return t.sort(axis=ax), [], False
